@@ -67,13 +67,30 @@ let show_out (st : state) (o : out) =
       | IdNil -> "nil" | IdErr -> "err" | IdPanic -> "panic"
       | IdTold a -> (if isreq then "ack:" else "offer:") ^ dn a in
     Printf.sprintf "%s %s ctx4=%s" (if isreq then "iq" else "id") rs (show_addr c4)
-  | OIs (adv, c6, cd) ->
-    let rs = match adv with None -> "nil" | Some (a6, pd) -> "adv:" ^ show_addr a6 ^ ":" ^ show_item pd in
-    Printf.sprintf "is %s ctx6=%s ctxpd=%s" rs (show_addr c6) (show_item cd)
+  | OIs (isreq, adv, err, c6, cd) ->
+    let rs = match adv with
+      | None -> if err then "err" else "nil"
+      | Some (a6, pd) -> (if isreq then "rep:" else "adv:") ^ show_addr a6 ^ ":" ^ show_item pd in
+    Printf.sprintf "%s %s ctx6=%s ctxpd=%s" (if isreq then "iv" else "is") rs (show_addr c6) (show_item cd)
   | ORel ir -> if ir then "ir" else "it"
   | OIa -> "ia"
 
-let seg st o = show_out st o ^ " | " ^ snap st ^ " | " ^ psnap st
+(* plugins/dhcp6/local lease tables; DUID = 00030001 + MAC *)
+let psnap6 (st : state) =
+  let q = st.st_prov.p6 in
+  let pools = st.st_reg.pools in
+  let pool_str f = function
+    | None -> ""
+    | Some k -> (match List.find_opt (fun p -> p.p_fam = f && p.p_key = k) pools with
+                 | Some p -> pool_name f p.p_prof k | None -> "?") in
+  let duid m = let i = int_of_n m in Printf.sprintf "0003000102000000%02x%02x" (i lsr 8) (i land 255) in
+  let n = List.map (fun (d, ((a, s), k)) -> duid d ^ ">" ^ dn a ^ "/" ^ sid_name s ^ "/" ^ pool_str F6 k) q.n_iana in
+  let a = List.map (fun (a, s) -> dn a ^ ">" ^ sid_name s) q.n_addr in
+  let d = List.map (fun (d, (((x, l), s), k)) -> duid d ^ ">" ^ dn x ^ "/" ^ dn l ^ "/" ^ sid_name s ^ "/" ^ pool_str FD k) q.n_pd in
+  let x = List.map (fun ((x, l), s) -> dn x ^ "/" ^ dn l ^ ">" ^ sid_name s) q.n_pfx in
+  "N[" ^ String.concat "," (sorted n) ^ "]A[" ^ String.concat "," (sorted a) ^ "]P[" ^ String.concat "," (sorted d)
+  ^ "]X[" ^ String.concat "," (sorted x) ^ "]"
+let seg st o = show_out st o ^ " | " ^ snap st ^ " | " ^ psnap st ^ " | " ^ psnap6 st
 
 let parse_cfg toks =
   let pools = ref [] and groups = ref [] and sess = ref [] in
@@ -107,7 +124,8 @@ let parse_op toks : op option =
   | ["PT"; sid] -> Some (PT (nd sid))
   | ["ID"; sid; vrf; s4; o4] -> Some (ID (false, false, None, nd sid, nd vrf, o s4, o o4))
   | ["IQ"; sid; vrf; s4; o4] -> Some (ID (true, true, None, nd sid, nd vrf, o s4, o o4))
-  | ["IS"; sid; vrf; s6; spd; o6; od] -> Some (IS (nd sid, nd vrf, o s6, opt_tok item_of_tok spd, o o6, o od))
+  | ["IS"; sid; vrf; s6; spd; o6; od] -> Some (IS (false, nd sid, nd vrf, o s6, opt_tok item_of_tok spd, o o6, o od))
+  | ["IV"; sid; vrf; s6; spd; o6; od] -> Some (IS (true, nd sid, nd vrf, o s6, opt_tok item_of_tok spd, o o6, o od))
   | ["IR"; sid] -> Some (IR (nd sid))
   | ["IT"; sid] -> Some (IT (nd sid))
   | ["IA"; sid] -> Some (IA (nd sid))
@@ -288,7 +306,7 @@ let () =
         | Some l -> (match List.nth_opt l idx with Some il -> Array.of_list (split_segs il) | None -> [||])
         | None -> [||] in
       let st = ref st0 in
-      let res = ref ["init | " ^ snap st0 ^ " | " ^ psnap st0] in
+      let res = ref ["init | " ^ snap st0 ^ " | " ^ psnap st0 ^ " | " ^ psnap6 st0] in
       let k = ref 1 in
       List.iter (fun otxt ->
         let toks = tokens otxt in
